@@ -108,6 +108,19 @@ def gen_case(rng, tier):
     if rng.random() < 0.3:
         base = gen.place_flags(rng, base, p=0.15, vocab=('prio', 'del', 'md'), on_seq_elems=False)
     docs = [base]
+    raw_texts = {}
+    if rng.random() < 0.25:
+        # one placeholder object reachable under several paths (YAML anchor + aliases): every path counts
+        if rng.random() < 0.5:
+            adoc = M([['al_a', SP('required')], ['al_b', SP('required')], ['al_c', M([['x', SP('required')], ['y', S(1)]])]])
+            raw_texts[1] = 'al_a: &anc !required\nal_b: *anc\nal_c: {x: *anc, y: 1}\n'
+            req_paths += [('al_a',), ('al_b',), ('al_c', 'x')]
+        else:
+            adoc = M([['al_d', M([['lr', SP('required')], ['wd', S(1)]])], ['al_s1', M([['opt', M([['lr', SP('required')], ['wd', S(1)]])]])],
+                      ['al_s2', L([M([['lr', SP('required')], ['wd', S(1)]]), S(2)])]])
+            raw_texts[1] = 'al_d: &opt {lr: !required , wd: 1}\nal_s1: {opt: *opt}\nal_s2: [*opt, 2]\n'
+            req_paths += [('al_d', 'lr'), ('al_s1', 'opt', 'lr'), ('al_s2', 0, 'lr')]
+        docs.append(adoc)
     touched = False
     for _ in range(rng.choice([0, 1, 1, 2, 3])):
         d = M([])
@@ -145,7 +158,7 @@ def gen_case(rng, tier):
         if d['items']:
             docs.append(d)
     style = rng.choice(['flow', 'block'])
-    return {'docs': docs, 'texts': [emit.emit(x, style) for x in docs], 'nt': bool(req_paths) and touched}
+    return {'docs': docs, 'texts': [raw_texts.get(i) or emit.emit(x, style) for i, x in enumerate(docs)], 'nt': bool(req_paths) and touched}
 
 
 _LINE = re.compile(r"^\s*'(.*)'\s*$")
